@@ -412,6 +412,7 @@ func BridgeIntents() []Intent {
 		{"emergency", intentEmergency}, {"propose-administrator", intentProposeAdmin}, {"propose-administrator2", intentProposeAdmin},
 		{"change-administrator", intentChangeAdmin}, {"liquidity-fund", intentLiqFund},
 		{"bridge-timed-redeem", intentTimedRedeem}, {"bridge-timed-redeem2", intentTimedRedeem},
+		{"guardians-elect-administrator", intentGuardiansElect},
 	}
 }
 
@@ -818,6 +819,26 @@ func intentProposeAdmin(h *Hist) bool {
 	}
 	return h.call(from, ct, types.ZnnTokenStandard, big.NewInt(0), ab.PackMethodPanic(definition.ProposeAdministratorMethodName, who),
 		fmt.Sprintf("%s.ProposeAdministrator(%s) by %s", ContractNames[ct], short(who), short(from)))
+}
+
+// intentGuardiansElect: a contract in emergency (no administrator) gets a new one: the guardians, one after the other,
+// propose the same account (a drawn number of them, so that the majority is missed by one, met exactly, or exceeded).
+func intentGuardiansElect(h *Hist) bool {
+	c := h.C
+	ct, ab := adminContract(h, "ge.liquidity")
+	if a := currentAdmin(h, ct); !a.IsZero() {
+		return false
+	}
+	who := []types.Address{BridgeAdmin(), UserKey(3).Address}[c.Pick("ge.who", 2)]
+	n := c.Int("ge.votes", 2, 5)
+	ok := false
+	for i := 0; i < n; i++ {
+		if h.call(UserKey(i).Address, ct, types.ZnnTokenStandard, big.NewInt(0), ab.PackMethodPanic(definition.ProposeAdministratorMethodName, who),
+			fmt.Sprintf("%s.ProposeAdministrator(%s) by guardian %d of a contract in emergency", ContractNames[ct], short(who), i)) {
+			ok = true
+		}
+	}
+	return ok
 }
 
 // intentChangeAdmin: the administrator hands over to another key of the ring (time-challenged: sent again later).
